@@ -17,6 +17,7 @@ EXPLANATION = (
     "documentation lists (Clef kept in staff modes); (F6-modes) the validated mode names are exactly the dispatched ones; "
     "(SINGLE) a single part is returned before anything is modified; (F6-flat) every branch of iter_parts' type dispatch "
     "is reachable (class-hierarchy-aware subsumption) and a Score is flattened through its parts."
+    ' (FLAT-all) iter_parts yields every part it meets (no condition besides the isinstance dispatch).'
 )
 NOT_DECIDED = [
     "equality of the merged part's sounding notes with the score-level note array (run-time values)",
